@@ -761,3 +761,72 @@ pub fn replay_lockstep(sub: &str, case: &Value, flags: Flags) -> Verdict {
     let c = case_from_json(case).map_err(|e| Failure::new(sub, case.clone(), "a well-formed case", e))?;
     run_case(&c, flags).map(|_| ()).map_err(|(e, o)| Failure::new(sub, case.clone(), e, o))
 }
+
+// ------------------------------------------------------------------------------------------------
+// dispatch expectation, reusable outside the lock-step loop (C14 suffixes)
+
+pub enum Dispatch {
+    /// handler must not be invoked
+    None,
+    /// exactly one invocation with this name and these arguments
+    Exactly(String, Vec<RArg>),
+    /// exactly one invocation, content left open
+    One,
+    /// left open
+    Unspecified,
+}
+
+pub fn expected_dispatch(line: &str, help_on: bool) -> Dispatch {
+    match ref_tokens(line) {
+        Some(t) => {
+            if t.is_empty() {
+                return Dispatch::None;
+            }
+            let h = if help_on { is_help_request(&t) } else { Some(false) };
+            match h {
+                None => Dispatch::Unspecified,
+                Some(true) => Dispatch::None,
+                Some(false) => Dispatch::Exactly(t[0].clone(), ref_classify(&t[1..])),
+            }
+        }
+        None => {
+            if help_on && line.contains('h') {
+                Dispatch::Unspecified
+            } else if has_token(line) {
+                Dispatch::One
+            } else {
+                Dispatch::Unspecified
+            }
+        }
+    }
+}
+
+pub fn check_dispatch(d: &Dispatch, new_calls: &[vmodel::session::Call], what: &str, line: &str) -> Result<(), Fail> {
+    match d {
+        Dispatch::Unspecified => Ok(()),
+        Dispatch::None => {
+            if new_calls.is_empty() {
+                Ok(())
+            } else {
+                Err((format!("{}: line {:?} does not reach the handler", what, line), format!("{:?}", new_calls)))
+            }
+        }
+        Dispatch::One => {
+            if new_calls.len() == 1 {
+                Ok(())
+            } else {
+                Err((format!("{}: exactly one invocation for the line {:?}", what, line), format!("{} invocations", new_calls.len())))
+            }
+        }
+        Dispatch::Exactly(name, args) => {
+            let got_args: Option<Vec<RArg>> = new_calls.first().and_then(|c| c.args.iter().map(|a| a.to_ref()).collect());
+            if new_calls.len() != 1 || new_calls[0].name != name.as_bytes() || got_args.as_ref() != Some(args) {
+                return Err((
+                    format!("{}: exactly one invocation with name {:?} and arguments {:?} for the line {:?}", what, name, args, line),
+                    format!("{} invocation(s): {:?}", new_calls.len(), new_calls),
+                ));
+            }
+            Ok(())
+        }
+    }
+}
